@@ -7,13 +7,14 @@ import (
 
 // Choice records one decision taken during an execution.
 type Choice struct {
-	N     int    // number of options
-	C     int    // option taken
-	RunEn bool   // scheduling point: the running thread could have continued
-	Pick  bool   // select/pick decision rather than a thread choice
-	Clock int    // index of the clock option, -1 if none
-	FP    uint64 // happens-before fingerprint when the decision was taken
-	TID   []int  // thread ids of the options (nil for picks)
+	N     int      // number of options
+	C     int      // option taken
+	RunEn bool     // scheduling point: the running thread could have continued
+	Pick  bool     // select/pick decision rather than a thread choice
+	Clock int      // index of the clock option, -1 if none
+	FP    uint64   // happens-before fingerprint when the decision was taken
+	TID   []int    // thread ids of the options (nil for picks)
+	CID   []uint64 // canonical ids of the options
 	Op    Op
 }
 
@@ -44,8 +45,15 @@ func (r *Replay) Choose(p *Point) int {
 			clock = k
 		}
 	}
+	cids := make([]uint64, len(p.Opts))
+	for k, id := range p.Opts {
+		cids[k] = 2
+		if id >= 0 && cur != nil && id < len(cur.threads) {
+			cids[k] = cur.threads[id].cid
+		}
+	}
 	r.Trace = append(r.Trace, Choice{N: len(p.Opts), C: c, RunEn: p.RunningEnabled, Clock: clock, FP: Fingerprint(),
-		TID: p.Opts, Op: p.Op})
+		TID: p.Opts, CID: cids, Op: p.Op})
 	return c
 }
 
@@ -92,6 +100,7 @@ type ExploreStats struct {
 	Violations   []*Violation // one per distinct key, in order of discovery
 	Elapsed      time.Duration
 	TimedOut     bool
+	FirstTrace   string // decisions of the first (default) schedule, for diagnosis
 }
 
 // Violation is a failing execution with its replayable schedule.
@@ -117,10 +126,17 @@ type ExploreConfig struct {
 
 type pruneKey struct {
 	fp  uint64
-	tid int
+	tid uint64 // canonical id of the thread taken (2 = clock)
 }
 
-// Explore enumerates schedules depth-first with iterative preemption bounding.
+// Explore enumerates schedules depth-first with iterative deviation bounding:
+// the default schedule runs the current thread until it blocks and then the
+// lowest-numbered enabled thread, fires timers only when nothing else can run
+// and takes the first ready select clause; bound k covers every schedule that
+// departs from that default at most k times (any alternative thread at any
+// scheduling point, an early timer firing, another select clause). This is the
+// "delay bounding" variant of context bounding: the number of schedules is
+// polynomial in the execution length for a fixed bound, including at bound 0.
 func Explore(cfg ExploreConfig) *ExploreStats {
 	st := &ExploreStats{Outcomes: map[string]int{}, BoundDone: -1}
 	start := time.Now()
@@ -209,22 +225,35 @@ func (x *explorer) explore(prefix []int, cost0 int, depth int) {
 		}
 	}
 	trace := rp.Trace
+	if x.st.Executions == 1 {
+		for _, c := range trace {
+			tag := c.Op.String()
+			if c.Pick {
+				tag = "pick"
+			}
+			if !c.RunEn && !c.Pick {
+				tag += "*" // free choice: the running thread could not continue
+			}
+			x.st.FirstTrace += fmt.Sprintf("%s/%d ", tag, c.N)
+		}
+	}
 	// preemptions before decision i
 	cost := cost0
 	for i := len(prefix); i < len(trace); i++ {
 		c := trace[i]
 		x.states[c.FP] = struct{}{}
 		for alt := 1; alt < c.N; alt++ {
-			altCost := cost
-			if !c.Pick && c.RunEn && alt != c.Clock {
-				altCost++
-			}
+			// deviation (delay) bounding: every departure from the default
+			// schedule costs one, whether it preempts a running thread,
+			// picks another thread at a blocking point, fires a timer early
+			// or takes another ready select clause.
+			altCost := cost + 1
 			if altCost > x.bound {
 				*x.cut = true
 				continue
 			}
 			if x.cfg.Prune && !c.Pick {
-				k := pruneKey{c.FP, c.TID[alt]}
+				k := pruneKey{c.FP, c.CID[alt]}
 				rem := x.bound - altCost
 				if old, ok := x.seen[k]; ok && old >= rem {
 					x.st.Pruned++
